@@ -5,7 +5,11 @@ use serde_json::Value;
 pub mod c01;
 pub mod c02;
 pub mod c03;
+pub mod c04;
 pub mod c05;
+pub mod c06;
+pub mod c07;
+pub mod c08;
 pub mod c09;
 pub mod c10;
 pub mod c11;
@@ -15,6 +19,7 @@ pub mod c14;
 pub mod c15;
 pub mod c16;
 pub mod c17;
+pub mod c18;
 pub mod c19;
 
 pub struct Prop {
@@ -28,7 +33,11 @@ pub const PROPS: &[Prop] = &[
     Prop { id: "C01", level: "exploration", run: c01::run, replay: c01::replay },
     Prop { id: "C02", level: "exploration", run: c02::run, replay: c02::replay },
     Prop { id: "C03", level: "exploration", run: c03::run, replay: c03::replay },
+    Prop { id: "C04", level: "exploration", run: c04::run, replay: c04::replay },
     Prop { id: "C05", level: "exploration", run: c05::run, replay: c05::replay },
+    Prop { id: "C06", level: "exploration", run: c06::run, replay: c06::replay },
+    Prop { id: "C07", level: "exploration", run: c07::run, replay: c07::replay },
+    Prop { id: "C08", level: "exploration", run: c08::run, replay: c08::replay },
     Prop { id: "C09", level: "exploration", run: c09::run, replay: c09::replay },
     Prop { id: "C10", level: "exploration", run: c10::run, replay: c10::replay },
     Prop { id: "C11", level: "exploration", run: c11::run, replay: c11::replay },
@@ -38,6 +47,7 @@ pub const PROPS: &[Prop] = &[
     Prop { id: "C15", level: "fault_enumeration", run: c15::run, replay: c15::replay },
     Prop { id: "C16", level: "fault_enumeration", run: c16::run, replay: c16::replay },
     Prop { id: "C17", level: "exploration", run: c17::run, replay: c17::replay },
+    Prop { id: "C18", level: "fault_enumeration", run: c18::run, replay: c18::replay },
     Prop { id: "C19", level: "exploration", run: c19::run, replay: c19::replay },
 ];
 
